@@ -13,6 +13,8 @@ overloads are modelled with their own pair of comparison functions and proved un
 -/
 import TetlProofs.C09.Hint
 import TetlProofs.C09.Mset
+import TetlProofs.C09.Rel
+import TetlProofs.C09.Bridge01
 namespace Tetl.C09.Props
 open Tetl Tetl.C09
 
@@ -317,6 +319,38 @@ theorem riter_eq (l : List α) : riter l = .ok l.reverse := Tetl.C09.riter_eq l
 
 example : ([1, 3, 5] : List Nat).length ≤ 3 := by decide
 
+/-! ## erase_if, relational operators, size observers -/
+
+/-- `erase_if(set, pred)` of static_set and both flat_set backings (`remove_if` loop of C06 + the container's erase of the tail):
+    no access outside the vector; leaves exactly the elements that do not satisfy `pred`, in order, and returns how many went
+    ([associative.erasure], [flat.set.erasure]) — for EVERY vector, sorted or not -/
+theorem setEraseIf_eq (kind : Kind) (p : α → Bool) (l : List α) :
+    setEraseIf kind p l = .ok (Spec.eraseIf p l) := setEraseIf_eq' kind p l
+
+theorem spec_eraseIf_inv {cap : Nat} {l : List α} (h : Inv1 lt cap l) (p : α → Bool) :
+    Inv1 lt cap (Spec.eraseIf p l).1 :=
+  ⟨sorted_filter h.1 _, Nat.le_trans (List.length_filter_le _ _) h.2⟩
+
+/-- `operator==` (static_set: size test + 3-iterator `equal`; flat_set: 4-iterator `equal`): same length and element-wise `==` -/
+theorem setEq_eq (kind : Kind) (e : Elem α) (a b : List α) :
+    setEq kind e a b = .ok (Tetl.C06.Spec.equal e.eq a b) := setEq_eq' kind e a b
+
+/-- `operator<`: `std::lexicographical_compare` of the two iteration sequences with the element `operator<` -/
+theorem setLt_eq (e : Elem α) (a b : List α) : setLt e a b = .ok (Tetl.C06.Spec.lexLt e.lt a b) := setLt_eq' e a b
+
+/-- all six relational operators (`==`, `!=`, `<`, `<=`, `>`, `>=`) of static_set / flat_set answer like those of `std::set`:
+    no read outside either vector, for any two vectors (no sortedness needed) -/
+theorem relOps_eq (kind : Kind) (e : Elem α) (a b : List α) : relOps kind e a b = .ok (Spec.relOps e a b) :=
+  relOps_eq' kind e a b
+
+/-- `size()`, `empty()`, `full()` (static_set), `max_size()` -/
+theorem sizes_eq (kind : Kind) (cap : Nat) (l : List α) : setSizes kind cap l = Spec.sizes (kind == .ss) cap l :=
+  setSizes_eq' kind cap l
+
+/-- in particular: `full()` holds exactly when `size() == max_size()`, `empty()` exactly when `size() == 0` -/
+theorem sizes_consistent (cap : Nat) (l : List α) :
+    setSizes .ss cap l = .sizes l.length (l.length == 0) (some (l.length == cap)) cap := rfl
+
 /-! ## constructors -/
 
 /-- Every constructor on input satisfying its documented precondition (`Spec.validCtor`: the range / container fits;
@@ -367,7 +401,72 @@ theorem multiset_sorted_perm (hw : StrictWeak lt) (cap : Nat) (c : List α) (hfi
 theorem multiset_eq_spec (hw : StrictWeak lt) (heq : EquivIsEq lt) (cap : Nat) (c : List α) (hfit : c.length ≤ cap) :
     msetCtor lt cap c = .ok (Spec.multiset lt c) := msetCtor_eq_spec hw heq cap c hfit
 
+/-- STABILITY of `flat_multiset(KeyContainer)` for EVERY strict weak order (no assumption relating `==` and the comparator):
+    gnome sort only exchanges adjacent elements that are strictly out of order, so equivalent elements keep the order they had in
+    the container; the constructor's result is exactly the spec's stable sort — the sequence `std::multiset` builds from the same
+    range ([associative.reqmts] insert of equivalent keys at the upper bound).  Subsumes `multiset_eq_spec`. -/
+theorem multiset_eq_stable (hw : StrictWeak lt) (cap : Nat) (c : List α) (hfit : c.length ≤ cap) :
+    msetCtor lt cap c = .ok (Spec.multiset lt c) := msetCtor_eq_stable hw cap c hfit
+
+/-- the same over the harness' inplace-vector-like container (contract) … -/
+theorem multiset_eq_stable_contract (hw : StrictWeak lt) (cap : Nat) (c : List α) (hfit : c.length ≤ cap) :
+    fiMsetCtor lt cap c = .ok (Spec.multiset lt c) := fiMsetCtor_eq' hw cap c hfit
+
+/-- … and over `etl::inplace_vector` (C01 model of its move constructor) -/
+theorem multiset_eq_stable_inplace_vector {lt : Nat → Nat → Bool} (hw : StrictWeak lt) (cap : Nat) (c : List Nat)
+    (hfit : c.length ≤ cap) : fvMsetCtor lt cap c = .ok (Spec.multiset lt c) := fvMsetCtor_eq' hw cap c hfit
+
+/-- the stable sort keeps every class of equivalent elements in container order (what "stable" means), is a permutation and is
+    weakly ascending: the three facts that characterise `Spec.multiset` (uniqueness: `Tetl.C06.stableSort_unique`) -/
+theorem multiset_spec_stable (hw : StrictWeak lt) (c : List α) (x : α) :
+    (Spec.multiset lt c).filter (fun y => !lt x y && !lt y x) = c.filter (fun y => !lt x y && !lt y x) := by
+  have e : Tetl.C06.Spec.equiv lt x = fun y => !lt x y && !lt y x := by
+    funext y; simp [Tetl.C06.Spec.equiv]
+  have := Tetl.C06.stableSort_filter hw.toC06 c x
+  rw [e] at this
+  exact this
+
 example : ([2, 0, 2, 1] : List Nat).length ≤ 8 := by decide
+-- sample (a test, not a proof): with the comparator `a/2 < b/2` the equivalent keys 3 and 2 keep their container order
+example : msetCtor (fun a b : Nat => decide (a / 2 < b / 2)) 8 [3, 0, 2, 1] = .ok [0, 1, 3, 2] := by rfl
+
+/-! ## flat_set over etl::inplace_vector (the members that compile) and the container contract -/
+
+/-- `flat_set(sorted_unique, inplace_vector)`: the two container moves (C01 model of `inplace_vector(inplace_vector&&)`) adopt
+    the sequence; on input meeting the precondition the result satisfies the invariant, so every lookup theorem
+    (`lookup_eq`, `hlookup_eq`), `relOps_eq` and `sizes_eq` applies to it -/
+theorem fv_construct_eq (cap : Nat) (c : List Nat) (h : c.length ≤ cap) : fvCtor cap c = .ok c := fvCtor_eq' cap c h
+
+theorem fv_clear_eq (cap : Nat) (l : List Nat) (hc : cap < 2 ^ 64) : fvClear cap l = .ok [] := fvClear_eq' cap l hc
+
+theorem fv_extract_eq (cap : Nat) (l : List Nat) (hc : cap < 2 ^ 64) (h : l.length ≤ cap) :
+    fvExtract cap l = .ok ([], l) := fvExtract_eq' cap l hc h
+
+example : ([1, 3, 5] : List Nat).length ≤ 4 ∧ (4 : Nat) < 2 ^ 64 := by decide
+
+/-- The container contract under which flat_set is proved for the `.fi` backing is the C01 model of `etl::static_vector`
+    (`emplace(pos, x)` = `insertRv`, `erase(first, last)` = `eraseRange`, range / copy construction, `clear`) on every input
+    meeting the container's preconditions: C01 proves those members equal to `std::vector`'s, so the `.fi` theorems are
+    theorems about flat_set over any `std::vector`-like container, tetl's own included. -/
+theorem contract_is_static_vector (cap : Nat) (l : List Nat) (hc : cap < 2 ^ 64) (hcap : l.length ≤ cap) :
+    (∀ pos x, l.length < cap → pos ≤ l.length → miniEmplace cap l pos x = Tetl.C01.insertRv cap l pos x) ∧
+    (∀ f la, f ≤ la → la ≤ l.length → miniErase l f la = Tetl.C01.eraseRange cap l f la) ∧
+    miniCtor cap l = Tetl.C01.ctorRange cap l ∧ miniCtor cap l = Tetl.C01.copyCtor cap l ∧
+    Tetl.C01.clear cap l = .ok (miniClear l) :=
+  ⟨fun pos x hn hp => miniEmplace_is_c01 cap l pos x hc hn hp,
+   fun f la hfl hl => miniErase_is_c01 cap l f la hc hcap hfl hl,
+   (miniCtor_is_c01 cap l hc hcap).1, (miniCtor_is_c01 cap l hc hcap).2, miniClear_is_c01 cap l hc⟩
+
+/-- C09's own loop-level model of the static_vector members flat_set calls agrees with the C01 model of the same members -/
+theorem static_vector_models_agree (cap : Nat) (l : List Nat) (hc : cap < 2 ^ 64) (hcap : l.length ≤ cap) :
+    (∀ pos x, l.length < cap → pos ≤ l.length → svEmplace cap l pos x = Tetl.C01.insertRv cap l pos x) ∧
+    (∀ f la, f ≤ la → la ≤ l.length → svErase l f la = Tetl.C01.eraseRange cap l f la) ∧
+    svCtor cap l = Tetl.C01.ctorRange cap l ∧ Tetl.C01.clear cap l = .ok (svClear l) :=
+  ⟨fun pos x hn hp => svEmplace_is_c01 cap l pos x hc hn hp,
+   fun f la hfl hl => svErase_is_c01 cap l f la hc hcap hfl hl,
+   svCtor_is_c01 cap l hc hcap, svClear_is_c01 cap l hc⟩
+
+example : (4 : Nat) < 2 ^ 64 ∧ ([1, 3, 5] : List Nat).length ≤ 4 := by decide
 
 /-! ## histories -/
 
@@ -487,6 +586,58 @@ theorem inv_history (hw : StrictWeak lt) (h : Het α κ) (isSet : Bool) (cap : N
     simp only [validHist, Bool.and_eq_true] at hv
     exact ih _ (step_inv hw h isSet hinv op hv.1) hv.2
 
+/-! ### histories extended by erase_if, the relational operators and the size observers (`XOp`) -/
+
+theorem xstep_inv (hw : StrictWeak lt) (h : Het α κ) (e : Elem α) (isSet : Bool) {cap : Nat} {s : St α} (hinv : Inv lt cap s)
+    (op : XOp α κ) (hv : Spec.xvalid cap lt s op = true) : Inv lt cap (Spec.xstep isSet lt h e cap s op).1 := by
+  cases op with
+  | base op => exact step_inv hw h isSet hinv op hv
+  | eraseIf p => exact ⟨spec_eraseIf_inv hinv.1 p, hinv.2⟩
+  | cmp => exact hinv
+  | sizes => exact hinv
+
+/-- one operation of an extended history: the model never errors and produces the spec's state and result -/
+theorem xstep_refines (hw : StrictWeak lt) {h : Het α κ} (hh : HetOk lt h) (e : Elem α) (kind : Kind) {cap : Nat}
+    {s : St α} (hinv : Inv lt cap s) (op : XOp α κ) (hv : Spec.xvalid cap lt s op = true) (hk : xopOk kind op = true) :
+    xstep kind lt h e cap s op = .ok (Spec.xstep (kind == .ss) lt h e cap s op) := by
+  cases op with
+  | base op => simp only [xstep, Spec.xstep, step_refines hw hh kind hinv op hv hk, ok_bind]
+  | eraseIf p => simp only [xstep, Spec.xstep, setEraseIf_eq, ok_bind]
+  | cmp => simp only [xstep, Spec.xstep, relOps_eq, ok_bind]
+  | sizes => simp only [xstep, Spec.xstep, sizes_eq]
+
+/-- MAIN THEOREM, extended: every history in which `erase_if(pred)` (any predicate), the six relational operators against the
+    other live set and `size()/empty()/full()/max_size()` are interleaved with all the operations of `run_refines` runs
+    without a single out-of-vector access or violated precondition and yields the outputs and final state of the
+    std::set specification — any length, capacity, key type, strict weak order, element `==` / `<`, all three set kinds. -/
+theorem xrun_refines (hw : StrictWeak lt) {h : Het α κ} (hh : HetOk lt h) (e : Elem α) (kind : Kind) (cap : Nat) :
+    ∀ (ops : List (XOp α κ)) (s : St α), Inv lt cap s → xopsOk kind ops = true →
+      xvalidHist (kind == .ss) lt h e cap s ops = true →
+      xrun kind lt h e cap s ops = .ok (Spec.xrun (kind == .ss) lt h e cap s ops) := by
+  intro ops
+  induction ops with
+  | nil => intro s _ _ _; rfl
+  | cons op ops ih =>
+    intro s hinv hok hv
+    simp only [xopsOk, List.all_cons, Bool.and_eq_true] at hok
+    simp only [xvalidHist, Bool.and_eq_true] at hv
+    have hstep := xstep_refines hw hh e kind hinv op hv.1 hok.1
+    have hinv' := xstep_inv hw h e (kind == .ss) hinv op hv.1
+    have hrest := ih (Spec.xstep (kind == .ss) lt h e cap s op).1 hinv' hok.2 hv.2
+    simp only [xrun, Spec.xrun, hstep, ok_bind, hrest]
+
+/-- the invariant (strictly ascending, within capacity) over extended histories -/
+theorem xinv_history (hw : StrictWeak lt) (h : Het α κ) (e : Elem α) (isSet : Bool) (cap : Nat) :
+    ∀ (ops : List (XOp α κ)) (s : St α), Inv lt cap s → xvalidHist isSet lt h e cap s ops = true →
+      Inv lt cap (Spec.xrun isSet lt h e cap s ops).1 := by
+  intro ops
+  induction ops with
+  | nil => intro s h _; exact h
+  | cons op ops ih =>
+    intro s hinv hv
+    simp only [xvalidHist, Bool.and_eq_true] at hv
+    exact ih _ (xstep_inv hw h e isSet hinv op hv.1) hv.2
+
 /-- the comparators of the harness satisfy the hypotheses: `less` / `greater` on integers are strict total orders
     (hence strict weak orders); ordering by `k / 2` is a strict weak order that is not total -/
 theorem strictTotal_nat_lt : StrictTotal (fun a b : Nat => decide (a < b)) :=
@@ -495,6 +646,20 @@ theorem strictTotal_nat_gt : StrictTotal (fun a b : Nat => decide (a > b)) :=
   ⟨by simp, by intro a b c; simp; omega, by intro a b; simp; omega⟩
 theorem strictWeak_nat_half : StrictWeak (fun a b : Nat => decide (a / 2 < b / 2)) :=
   ⟨by intro a; simp, by intro a b c; simp; omega, by intro a b c; simp; omega⟩
+
+/-- the hypothesis `StrictWeak` as a decidable predicate on samples: a strict weak order passes `strictWeakOn` on every finite
+    sample of keys (so a comparator failing it on some sample is outside every theorem of this file) -/
+theorem strictWeak_on_samples (hw : StrictWeak lt) (xs : List α) : strictWeakOn lt xs = true := by
+  simp only [strictWeakOn, Bool.and_eq_true, List.all_eq_true]
+  refine ⟨⟨fun a _ => by simp [hw.irrefl a], fun a _ b _ c _ => ?_⟩, fun a _ b _ c _ => ?_⟩
+  · cases hab : lt a b <;> cases hbc : lt b c <;> simp
+    exact hw.trans a b c hab hbc
+  · cases hab : lt a b <;> cases hba : lt b a <;> cases hbc : lt b c <;> cases hcb : lt c b <;> simp
+    exact hw.incomp_trans a b c hab hba hbc hcb
+
+-- samples (tests, not proofs): the harness' strict-weak-only comparator passes on its key universe; `≤` fails
+example : strictWeakOn (fun a b : Nat => decide (a / 2 < b / 2)) [0, 1, 2, 3, 4, 5, 6, 7] = true := by decide
+example : strictWeakOn (fun a b : Nat => decide (a ≤ b)) [0, 1] = false := by decide
 
 theorem half_not_total : ¬ EquivIsEq (fun a b : Nat => decide (a / 2 < b / 2)) :=
   fun h => absurd (h 2 3 (by decide) (by decide)) (by decide)
@@ -514,6 +679,15 @@ example : validHist false (fun a b : Nat => decide (a < b)) ({ ek := fun x k => 
     3 { cur := [1, 3, 5], other := [2] }
     [.insert 4, .eraseKey 2, .eraseAt 1, .insertHint 0 4, .swap, .eraseRange 0 1, .replace [0, 7], .hlookup .find 7,
       .riter, .extract] = true := by
+  decide
+-- non-vacuity of `xrun_refines`: an extended history satisfying its hypotheses
+example : xvalidHist false (fun a b : Nat => decide (a < b)) ({ ek := fun x k => decide (x < k), ke := fun k x => decide (k < x) } : Het Nat Nat)
+    ({ eq := fun a b => a == b, lt := fun a b => decide (a < b) } : Elem Nat)
+    3 { cur := [1, 3, 5], other := [2] }
+    [.base (.insert 4), .cmp, .base .swap, .eraseIf (fun v => v % 2 == 1), .sizes, .base (.eraseRange 0 0), .cmp,
+      .base (.replace [0, 7]), .eraseIf (fun v => v == 7), .base .extract] = true := by
+  decide
+example : xopsOk Kind.fs ([.base (.insert 4), .cmp, .eraseIf (fun v => v == 7), .sizes, .base .extract] : List (XOp Nat Nat)) = true := by
   decide
 example : opsOk Kind.fs ([.insert 4, .swap, .replace [0, 7], .insertHint 1 3, .extract] : List (Op Nat Nat)) = true := by decide
 
